@@ -82,18 +82,18 @@ fn hour_table(n: i64, log: &mut Log) {
 }
 
 fn random_instant(rng: &mut Rng) -> i64 {
-  let a = random_instant_raw(rng);
-  // the 160 reform-era days are a listed finding of C02/C07 (wrong lunar label -> wrong day pillar)
-  if cal::reform_era_day(a.div_euclid(86400)) {
-    a + 400 * 86400
-  } else {
-    a
+  let mut a = random_instant_raw(rng);
+  // the 160 reform-era days are a listed finding of C02/C07 (wrong lunar label -> wrong day pillar); the
+  // inverse search starts from the month's Jie day, so the 32 days after such a day are avoided as well
+  while cal::reform_era_near(a.div_euclid(86400)) {
+    a += 97 * 86400;
   }
+  a
 }
 
 fn random_instant_raw(rng: &mut Rng) -> i64 {
   let c = cal();
-  let lo = c.dn(1, 2, 1) * 86400;
+  let lo = c.dn(1, 2, 10) * 86400; // after Lichun of AD 1: sexagenary year 0 cannot be searched (year 0 is not representable)
   let hi = c.dn(9998, 12, 31) * 86400 + 86399;
   match rng.below(8) {
     0 => {
